@@ -278,7 +278,19 @@ func main() {
 		return fmt.Sprintf("udp[kind=%s,batch=%s]: %s", sp.kind, sp.batch, msg)
 	}
 	params := family(c)
-	for i, r := range harness.ExploreBatch("udp", params, harness.Pick(c, 2, 3), harness.Pick(c, 40*time.Second, 3*time.Minute), true) {
+	// failing sends racing with Stop need three delays to reach the uplink's error path with the send
+	// channel already closed, so those scenarios get the deeper bound in both tiers
+	var deep, rest []string
+	for _, p := range params {
+		if parse(p).kind == "sendErr" {
+			deep = append(deep, p)
+		} else {
+			rest = append(rest, p)
+		}
+	}
+	results := harness.ExploreBatch("udp", rest, harness.Pick(c, 2, 3), harness.Pick(c, 40*time.Second, 3*time.Minute), true)
+	results = append(results, harness.ExploreBatch("udp", deep, 3, harness.Pick(c, 60*time.Second, 3*time.Minute), true)...)
+	for i, r := range results {
 		if i%6 == 0 {
 			c.Sample(map[string]any{"scenario": r.Param, "executions": r.Stats.Execs, "observations": len(r.Stats.Observations), "bound": r.Stats.BoundCompleted})
 		}
